@@ -458,6 +458,11 @@ class Engine2:
             return r
         # user function with a body: evaluate with the argument ranges (depth-limited)
         avals = self._record_call(e, st)
+        sm = getattr(self, 'summaries', None)
+        if sm and (name in sm or sn in sm):
+            r = (sm.get(name) or sm.get(sn))(self, e, avals)
+            if r is not None:
+                return r
         fl = self.facts.fns.get(name) if name else None
         if fl and self.depth < 2 and len(fl[0].d['blocks']) <= 40 and trange(fl[0].d['ret']) is not None:
             cf = fl[0]
